@@ -45,7 +45,7 @@ struct Paid {
     others: BTreeMap<String, u128>,
 }
 
-fn paid(out: &Outcome, w: &World, pos: &Position) -> Paid {
+fn paid(out: &Outcome, w: &World, fc: &str, pos: &Position) -> Paid {
     let mut p = Paid { owner: 0, fee_collector: 0, others: BTreeMap::new() };
     for e in out.log() {
         if e.kind != BankKind::Send || e.from != w.fm.as_str() {
@@ -58,7 +58,7 @@ fn paid(out: &Outcome, w: &World, pos: &Position) -> Paid {
             }
             if e.to == pos.receiver.as_str() {
                 p.owner += c.amount.u128();
-            } else if e.to == w.fc.as_str() {
+            } else if e.to == fc {
                 p.fee_collector += c.amount.u128();
             } else {
                 *p.others.entry(e.to.clone()).or_default() += c.amount.u128();
@@ -86,7 +86,9 @@ impl C09 {
     /// judge one executed emergency withdrawal; returns the penalty
     fn judge(&self, w: &World, f: &FObs, pos: &Position, now: u64, out: &Outcome, how: &str, rep: &mut Reporter) -> Option<u128> {
         let amount = pos.lp_asset.amount.u128();
-        let mut p = paid(out, w, pos);
+        // the fee collector is whoever the configuration names at the time of the exit
+        let fcs = f.cfg.fee_collector_addr.to_string();
+        let mut p = paid(out, w, &fcs, pos);
         // who may receive a share: owners of farms on this LP token that have started and are not expired
         let cur = f.epoch.unwrap_or(0);
         let active: BTreeSet<String> = f
@@ -102,7 +104,7 @@ impl C09 {
         // reproduce the owner's total
         let mut owner_inconsistent = false;
         self.parity_unknown.set(false);
-        if active.contains(pos.receiver.as_str()) && pos.receiver.as_str() != w.fc.as_str() {
+        if active.contains(pos.receiver.as_str()) && pos.receiver.as_str() != fcs.as_str() {
             let n = active.len() as u128;
             let total_to_owner = p.owner;
             let fc = p.fee_collector;
@@ -116,12 +118,22 @@ impl C09 {
                 }
             };
             let mut found = None;
-            for cand in [fc, (2 * fc).saturating_sub(1), 2 * fc, 0] {
+            // a fee collector that itself owns an active farm here gets a share on top of its part
+            let fc_active = active.contains(&fcs);
+            let mut cands = vec![fc, (2 * fc).saturating_sub(1), 2 * fc, 0];
+            if fc_active {
+                let est = fc.saturating_mul(2 * n) / (n + 1);
+                for d in 0..8u128 {
+                    cands.push(est.saturating_sub(4) + d);
+                }
+            }
+            for cand in cands {
                 if cand > amount {
                     continue;
                 }
                 let (share, fc_part) = split(cand);
-                let others_agree = active.iter().filter(|a| a.as_str() != pos.receiver.as_str() && a.as_str() != w.fc.as_str()).all(|a| p.others.get(a).copied().unwrap_or(0) == share);
+                let fc_part = if fc_active { fc_part + share } else { fc_part };
+                let others_agree = active.iter().filter(|a| a.as_str() != pos.receiver.as_str() && a.as_str() != fcs.as_str()).all(|a| p.others.get(a).copied().unwrap_or(0) == share);
                 if fc_part == fc && amount - cand + share == total_to_owner && others_agree {
                     found = Some((cand, share));
                     break;
@@ -188,11 +200,16 @@ impl C09 {
                 let share = half / active.len() as u128;
                 if share > 0 {
                     for a in &active {
-                        if p.others.get(a).copied().unwrap_or(0) != share && *a != w.fc.to_string() {
+                        if p.others.get(a).copied().unwrap_or(0) != share && *a != fcs {
                             errs.push(format!("farm owner {} got {} instead of the equal share {share}", w.name_of(a), p.others.get(a).copied().unwrap_or(0)));
                         }
                     }
-                    if p.fee_collector < penalty - half && !active.contains(&w.fc.to_string()) {
+                    if active.contains(&fcs) && pos.receiver.as_str() != fcs.as_str() {
+                        // the fee collector also owns an active farm: its half and its owner's share
+                        if p.fee_collector != penalty - half + share {
+                            errs.push(format!("fee collector (also an active farm owner) got {} instead of its half {} plus the share {share}", p.fee_collector, penalty - half));
+                        }
+                    } else if p.fee_collector < penalty - half && !active.contains(&fcs) {
                         errs.push(format!("fee collector got {} < its half {}", p.fee_collector, penalty - half));
                     }
                 } else if p.fee_collector != penalty {
@@ -224,6 +241,21 @@ impl C09 {
             Some(p) => (*p).clone(),
             None => return,
         };
+        let orig = w.snapshot();
+        // now and then the fee collector is first re-pointed at the owner of an active farm on the
+        // position's LP token (it then collects its half and a farm owner's share)
+        let mut how = "forked exit at a chosen time";
+        if self.rng.gen_range(0..3) == 0 {
+            let cur = s.fpost.epoch.unwrap_or(0);
+            let owners: Vec<Addr> = s.fpost.farms.values().filter(|fa| fa.lp_denom == pos.lp_asset.denom && fa.start_epoch <= cur && fa.owner != pos.receiver).map(|fa| fa.owner.clone()).collect();
+            if let Some(o) = owners.choose(&mut self.rng) {
+                let admin = w.owner.clone();
+                let o = o.to_string();
+                if w.apply(&crate::wfarm::fm_config_op(&admin, |p| p.fee_collector_addr = Some(o.clone()))).is_ok() {
+                    how = "forked exit at a chosen time, fee collector re-pointed at a farm owner";
+                }
+            }
+        }
         let snap = w.snapshot();
         let owner: Addr = pos.receiver.clone();
         let now = w.now();
@@ -258,7 +290,7 @@ impl C09 {
                 }
                 continue;
             }
-            if let Some(pen) = self.judge(w, &f, &pos, t, &out, "forked exit at a chosen time", rep) {
+            if let Some(pen) = self.judge(w, &f, &pos, t, &out, how, rep) {
                 // never increases as time passes after closing (same position, same state)
                 let slack = if self.parity_unknown.get() || last_parity_unknown { 1 } else { 0 };
                 last_parity_unknown = self.parity_unknown.get();
@@ -272,7 +304,7 @@ impl C09 {
                 last = Some((t, pen));
             }
         }
-        w.restore(&snap);
+        w.restore(&orig);
     }
 }
 
